@@ -11,7 +11,7 @@ CLAIMS = {
         design="§4 C02; §8",
     ),
     "C03": dict(
-        text='Proofs: bounds() returns exactly (L*R(start), R(end+1)-R(start), L*docs) with R(i)=round(fl(fl(total/num)*i)) under the float rounding model, plus lemmas R(0)=0, R(num)=total, R monotone, adjacent ranges abut (disjoint, contiguous, complete slices for ANY split of clients; total<=10^12, clients<=2^20); GenerateActionMetaData.__next__ (each fresh id handed out exactly once in order; a simulated conflict targets an id that HAS ALREADY been used, never index -1 / an unused id; StopIteration exactly when ids are exhausted); the line-offset table contracts of C14 (one entry per 50000 lines = tell() after that line, moved into place only when complete; lookup + skip end after line n). BOUNDED stand-in: offset table == skipping lines one by one on real files incl. multi-byte and CRLF content.',
+        text='Proofs: bounds() returns exactly (L*R(start), R(end+1)-R(start), L*docs) with R(i)=round(fl(fl(total/num)*i)) under the float rounding model, plus lemmas R(0)=0, R(num)=total, R monotone, adjacent ranges abut (disjoint, contiguous, complete slices for ANY split of clients; total<=10^12, clients<=2^20); GenerateActionMetaData.__next__ (each fresh id handed out exactly once in order; a simulated conflict targets an id that HAS ALREADY been used, never index -1 / an unused id; StopIteration exactly when ids are exhausted); the line-offset table contracts of C14 (one entry per 50000 lines = tell() after that line, moved into place only when complete; lookup + skip end after line n). BOUNDED stand-in: offset table == skipping lines one by one on real files incl. multi-byte and CRLF content. PartitionBulkIndexParamSource._init_internal_params: the bulks a worker will send are counted with the same corpora, partition range and BULK size the reader chain is built with; total_bulks is the ceiling of the ingest-percentage share.',
         note="Float rounding model (|fl(x)-x|<=2^-53|x|, monotone, exact on small integers), round-half-even; ids <= 2^40. Text-mode tell() as byte offset is bounded only. Readers' bulk cutting (Slice/IndexDataReader) and the corpus/client partition in PartitionBulkIndexParamSource are not under contract.",
         design="§4 C03; §8",
     ),
@@ -21,18 +21,18 @@ CLAIMS = {
         design="§4 C08; §8",
     ),
     "C20": dict(
-        text='Proof of ComparisonReporter._diff (sign, threshold, direction colour, plain output, zero-printing differences neutral, self-comparison neutral) for all reals and every formatter; _line row shape; convert formatters linear; swap lemmas; GlobalStats.metrics (the per-task record both races are read from: first record filed under the task name); 33 call-site obligations: treat_increase_as_improvement is True iff the metric is a throughput.',
+        text='Proof of ComparisonReporter._diff (sign, threshold, direction colour, plain output, zero-printing differences neutral, self-comparison neutral) for all reals and every formatter; _line row shape; convert formatters linear; swap lemmas; GlobalStats.metrics (the per-task record both races are read from: first record filed under the task name); 33 call-site obligations: treat_increase_as_improvement is True iff the metric is a throughput. write_single_report: the console shows the formatter applied to the rich rows, the report file gets the same formatter applied to the PLAIN rows (ghost event trace).',
         note='Exact-real arithmetic; number formatting and colour functions are uninterpreted. tabulate/csv rendering and relative difference for zero/opposite-sign baselines not decided.',
         design="§4 C20; §8",
     ),
 }
 CLAIMS["C15"] = dict(
-    text="Proof that best_match returns exactly the documented precedence (exact suffix, exact patch, exact minor, LARGEST prior minor of the same major incl. minor 0, major, master only when newer than every versioned branch, else None) for every branch list and version; latest_bounded_minor and _latest_major under contract with loop invariants; called by contract from best_match.",
+    text="Proof that best_match returns exactly the documented precedence (exact suffix, exact patch, exact minor, LARGEST prior minor of the same major incl. minor 0, major, master only when newer than every versioned branch, else None) for every branch list and version; latest_bounded_minor and _latest_major under contract with loop invariants; called by contract from best_match. RallyRepository.update: with a remote match exactly that branch is checked out (a failed rebase alone is tolerated with a warning); a failed git checkout / branch listing is never swallowed (DataError); no local branch or tag is a SystemSetupError.",
     note="The regular expressions / components() are represented by assumed spec functions with scheme axioms (listed in evidence), not proved. Git side (RallyRepository.update) not under contract. One genuine defect (minor 0) was found by this check and repaired by a fix: commit.",
     design="§4 C15",
 )
 CLAIMS["C16"] = dict(
-    text="Proof over all delegate outcome sequences (unbounded length) that Retry.__call__ makes <= retries+1 attempts, waits exactly retry-wait-period once between attempts, retries only timeouts/connection errors/HTTP 408 under retry-on-timeout and unsuccessful dict results under retry-on-error, returns/raises exactly what the last attempt produced, and leaves its own configuration untouched (frame). Ghost trace of call/sleep events with a loop invariant.",
+    text="Proof over all delegate outcome sequences (unbounded length) that Retry.__call__ makes <= retries+1 attempts, waits exactly retry-wait-period once between attempts, retries only timeouts/connection errors/HTTP 408 under retry-on-timeout and unsuccessful dict results under retry-on-error, returns/raises exactly what the last attempt produced, and leaves its own configuration untouched (frame). Ghost trace of call/sleep events with a loop invariant. Call-site obligations (syntactic; docs/track.rst vs the real AST): each of the 34 operations documented as retryable is registered by register_default_runners wrapped in Retry(..).",
     note="Delegate outcomes are an assumed enumeration of classes (evidence); except-matching uses issubclass facts dumped from the installed libraries. One known finding (other TransportErrors are swallowed and retried without waiting) is listed in known_findings.txt and excluded by path tag only.",
     design="§4 C16",
 )
@@ -42,12 +42,12 @@ CLAIMS["C17"] = dict(
     design="§4 C17",
 )
 CLAIMS["C05"] = dict(
-    text="Proofs for the iteration-based loop control (class invariant, sample type, progress in (0,1] ending at 1), the time-period control (warm-up/completion boundaries, equality left open as the statement allows), the schedule generator ScheduleHandle.__call__ with a loop invariant over the ghost sequence of yields (exactly warmup+iterations requests unless the parameter source is exhausted, first W flagged warm-up, progress (k+1)/(W+N), scheduled times non-decreasing), deterministic pacing (wait == weight*clients/target via UnitAwareScheduler.after_request + DeterministicScheduler), ramp-up wait, requires_time_period_schedule and schedule_for (choice and parameters of the loop control).",
+    text="Proofs for the iteration-based loop control (class invariant, sample type, progress in (0,1] ending at 1), the time-period control (warm-up/completion boundaries, equality left open as the statement allows), the schedule generator ScheduleHandle.__call__ with a loop invariant over the ghost sequence of yields (exactly warmup+iterations requests unless the parameter source is exhausted, first W flagged warm-up, progress (k+1)/(W+N), scheduled times non-decreasing), deterministic pacing (wait == weight*clients/target via UnitAwareScheduler.after_request + DeterministicScheduler), ramp-up wait, requires_time_period_schedule and schedule_for (choice and parameters of the loop control). AsyncExecutor.__call__ (shared with C04): the task's warm-up / time-period clock is started BEFORE the client waits for its ramp-up slot (ghost ordering assertion).",
     note="Exact-real arithmetic; every scheduler's next(c) >= c is assumed inside the generator (proved for the deterministic one); Poisson shape, throughput-string regex and the time-period branch of the generator are not decided.",
     design="§4 C05",
 )
 CLAIMS["C06"] = dict(
-    text="Proof of the conservation law of ThroughputCalculator.calculate_task_throughput with a ghost prefix-sum list: after every call total_count + ops(unprocessed) equals all operations handed in so far, unprocessed is exactly the not-yet-bucketed suffix of the batch (each sample once, in order); emitted values are non-negative, their sample types never decrease, and with positive elapsed time the task has a value for its current sample type. Loop invariant, frame obligations for every heap write.",
+    text="Proof of the conservation law of ThroughputCalculator.calculate_task_throughput with a ghost prefix-sum list: after every call total_count + ops(unprocessed) equals all operations handed in so far, unprocessed is exactly the not-yet-bucketed suffix of the batch (each sample once, in order); emitted values are non-negative, their sample types never decrease, and with positive elapsed time the task has a value for its current sample type. Loop invariant, frame obligations for every heap write. BOUNDED stand-in: ThroughputCalculator.calculate on 60 scenarios with interleaved tasks and batches -- what is reported for a task equals what a fresh calculator reports for that task's samples alone.",
     note="Exact reals; SampleType as ints 0/1; calculate()'s grouping/sorting and map_task_throughput not yet under contract. One genuine defect (double counting of carried-over samples) was found by this check and repaired by a fix: commit.",
     design="§4 C06",
 )
@@ -57,7 +57,7 @@ CLAIMS["C11"] = dict(
     design="§4 C11",
 )
 CLAIMS["C18"] = dict(
-    text="Proof, with the ContextVar binding as ghost state, that update_request_start/end keep the earliest start / latest end and ignore None, that RequestContextManager.__exit__ restores the parent's record, propagates min(start)/max(end) of the child into the parent, leaves the child's own timing untouched and propagates nothing at top level, and that on_request_start/end record the clock value; call-site obligations for the aiohttp trace-hook wiring. Closing sub-request contexts in any order therefore yields (min,max) at the root.",
+    text="Proof, with the ContextVar binding as ghost state, that update_request_start/end keep the earliest start / latest end and ignore None, that RequestContextManager.__exit__ restores the parent's record, propagates min(start)/max(end) of the child into the parent, leaves the child's own timing untouched and propagates nothing at top level, and that on_request_start/end record the clock value; call-site obligations for the aiohttp trace-hook wiring. Closing sub-request contexts in any order therefore yields (min,max) at the root. init_request_context: every (sub-)request context starts EMPTY (nothing inherited from the enclosing context) and is a new record bound in the current task.",
     note="contextvars semantics assumed (each asyncio task has its own binding; dicts shared by reference). One genuine defect (first start / last-written end instead of min/max, None pushed into the parent) was found by this check and repaired by a fix: commit. RequestTiming/Composite not yet under contract.",
     design="§4 C18",
 )
@@ -67,8 +67,8 @@ CLAIMS["C13"] = dict(
     design="§4 C13",
 )
 CLAIMS["C19"] = dict(
-    text="Proof (loop invariant over a ghost failed-item prefix count) that BulkIndex.simple_stats reports error-count / success-count equal to the numbers of failed / succeeded items of the fully parsed response and success iff no item failed on the slow path, and 0 errors / bulk_size successes on the fast path. The search_after cursor (_get_last_sort) and the selective parser are text scanners: they are covered by a BOUNDED stand-in only (36k enumerated responses vs json.loads on the real code), labelled bounded.",
-    note="Two known findings of the bounded part (']' inside a sort string; the text \"sort\" recurring after the last hit's sort key) are recorded in known_findings.txt by input class; any other failing response is reported. json.loads / next(iter(..)) are uninterpreted; detailed_stats and Query page accounting are not yet under contract.",
+    text="Proof (loop invariant over a ghost failed-item prefix count) that BulkIndex.simple_stats reports error-count / success-count equal to the numbers of failed / succeeded items of the fully parsed response and success iff no item failed on the slow path, and 0 errors / bulk_size successes on the fast path. The search_after cursor (_get_last_sort) and the selective parser are text scanners: they are covered by a BOUNDED stand-in only (36k enumerated responses vs json.loads on the real code), labelled bounded. Second BOUNDED stand-in: composite-aggregation after_key cursors (dotted / colliding / non-ASCII source names, null values) and scroll-search hit and page counters (totals as object or number, zero hits) against json.loads.",
+    note="Two known findings of the bounded part (']' inside a sort string; the text \"sort\" recurring after the last hit's sort key) are recorded in known_findings.txt by input class; any other failing response is reported. json.loads / next(iter(..)) are uninterpreted; detailed_stats and Query page accounting are not yet under contract. One more genuine defect (null members of the after_key dropped by the selective parser) was found by the bounded part and repaired by a fix: commit.",
     design="§4 C19",
 )
 CLAIMS["C12"] = dict(
